@@ -65,3 +65,56 @@ func VerifHarness_C13_one_binding_per_peer_in_both_ip_forms() {
 	vAssert(!c.isClosed(), "C14.relayed_socket_stays_open")
 	vReach("end")
 }
+
+// Two concurrent writers to the same peer IP (different ports): the second arrives while the first one's
+// CreatePermission transaction is still in flight. It must not put data on the wire before a CreatePermission for
+// that IP has succeeded - it waits for the first writer's outcome (or obtains the permission itself).
+//
+//verif:props=C13,C18 unwind=120 bounds="two goroutines calling WriteTo for one peer IP and two ports; the first CreatePermission is in flight (held by the harness) when the second writer arrives; every server reaction to every CreatePermission; 4-byte payloads"
+func VerifHarness_C13_second_writer_waits_for_the_permission() {
+	fc := &vClient{fixed: -1, txGate: make(chan struct{})}
+	c := vNewUDPConn(fc)
+	ip := net.IP(vBytesN(4))
+	p1, p2 := &net.UDPAddr{IP: ip, Port: int(vU16())}, &net.UDPAddr{IP: ip, Port: int(vU16())}
+	d1, d2 := false, false
+	var e1, e2 error
+	go func() {
+		_, e1 = c.WriteTo(vBytesN(4), p1)
+		d1 = true
+	}()
+	go func() {
+		_, e2 = c.WriteTo(vBytesN(4), p2)
+		d2 = true
+	}()
+	vRunSpawn(0) // first writer: inside its CreatePermission transaction
+	vRunSpawn(1) // second writer arrives meanwhile
+	vAssert(!d1, "C13.cover_first_permission_request_in_flight")
+	for _, e := range fc.events {
+		vAssert(!(e.isSendIndication() || e.isChannelData()), "C13.no_data_while_the_first_create_permission_is_in_flight")
+	}
+	// the responses arrive (every transaction of this harness needs a token)
+	for k := 0; k < 12; k++ {
+		if fc.inFlight > 0 {
+			fc.txGate <- struct{}{}
+		}
+		for i := 2; i < vSpawnCount(); i++ {
+			if !vSpawnStarted(i) {
+				vRunSpawn(i)
+			}
+		}
+		vYield()
+	}
+	vAssert(d1 && d2, "C13.both_writers_return")
+	permOK := false
+	for _, e := range fc.events {
+		if e.kind == 'T' && e.method == stun.MethodCreatePermission && e.react == vReactSuccess {
+			permOK = true
+		}
+		if e.isSendIndication() || e.isChannelData() {
+			vAssert(permOK, "C13.data_only_after_create_permission_success")
+		}
+	}
+	vAssertIf(!permOK, e1 != nil && e2 != nil, "C13.no_permission_no_data")
+	vAssert(vLocksHeld() == 0, "C18.no_lock_left_held")
+	vReach("end")
+}
